@@ -114,6 +114,7 @@ structure Config where
   types : List (String × Ty)
   compiler : List (String × Nat × Nat × List Nat)
   consts : List (String × Nat)
+  offsetConsts : List (String × String × String × Nat)
   updates : List (String × List String × List (String × String × Nat))
 
 def Config.ty (c : Config) (n : String) : Option Ty := c.types.lookup n
@@ -172,6 +173,16 @@ def passwdWrite (c : Config) (fn : String) (f : List Nat) (uid : Int) (b : List 
       -- the parameter has the field's own Go type (*Passwd_t, *Email_t, int32): its image has the field's size
       if b.length = n then some (writeAt f (seekPos sz u off) b) else none
     | _ => none
+
+/-- cmbbs.PasswdUpdate: the whole record (`types.BinaryWrite` of a `*UserecRaw`) at `USEREC_RAW_SZ * (uid-1)`. -/
+def passwdUpdate (c : Config) (f : List Nat) (uid : Int) (r : List Nat) : Option (List Nat) :=
+  match validUid c uid with
+  | none => none
+  | some u =>
+    match c.seek "cmbbs.PasswdUpdate", c.ty "UserecRaw" with
+    | some { stride := some sz, offs := [] }, some t =>
+      if r.length = sizeP t then some (writeAt f (seekPos sz u 0) r) else none
+    | _, _ => none
 
 /-- cmbbs.PasswdQueryPasswd / PasswdQueryUserLevel: seek and read the field; EOF is an error. -/
 def passwdRead (c : Config) (fn : String) (f : List Nat) (uid : Int) : Option (List Nat) :=
